@@ -539,6 +539,15 @@ def write_flow(ctx, syn_mod, shelly_members, has_escape=True,
                     repo, mf.module, d.args[0]) == ' '
             ctx.ob(R, short + '|write_each-delim', ok, mf.node,
                    'default delimiter is not the literal single space')
+            # every element is written: an empty string is an argument too
+            # ('' in a command line), nothing is filtered out on the way
+            ws = [e for e in cs if e.name == 'write']
+            tw = [e for e in ws if param_of(e.arg(0), 'things')]
+            ok = bool(tw) and not any(has_call(e.arg(0), 'if') for e in tw)
+            ctx.ob(R, short + '|write_each-writes-every-element', ok,
+                   mf.node, 'write_each drops some of the things it is '
+                   'given (an empty-string argument disappears and the '
+                   'following arguments shift)')
 
 
 # ---------------------------------------------------------------------------
@@ -604,7 +613,20 @@ def sh_safe(ctx, include_make_recipe=False, rule_id='SH-SAFE'):
     want = te.name == 'search'
 
     def leaf_pols(n_, f_):
-        return [pos for t, pos in F.guard_truths(n_, f_) if t is te.call]
+        out = []
+        for t, pos in F.guard_truths(n_, f_):
+            if t is te.call:
+                out.append(pos)
+            elif isinstance(t, ast.Compare) and len(t.ops) == 1 and \
+                    t.left is te.call and isinstance(
+                        t.comparators[0], ast.Constant) and \
+                    t.comparators[0].value is None:
+                # m = RE.search(s); `... is None` / `... is not None`
+                if isinstance(t.ops[0], (ast.Is, ast.Eq)):
+                    out.append(not pos)
+                elif isinstance(t.ops[0], (ast.IsNot, ast.NotEq)):
+                    out.append(pos)
+        return out
 
     def selected(e):
         # the quoting branch is not the branch where the search for bad
